@@ -377,6 +377,8 @@ pub fn run(p: &Params, rep: &mut Report) {
         for n in if p.thorough { vec![1100u32, 2100, 4200, 1300 + (p.seed as u32 * 37) % 1700] } else { vec![1100u32, 301 + (p.seed as u32 * 397) % 1700] } {
             super::ladder::wide_union(rep, "C01", n, p.seed);
         }
+        // first letters 0, 1, 2, ...: the class index of a character is the character itself (256+ classes)
+        super::ladder::wide_union_from(rep, "C01", 300, 0, p.seed);
         super::ladder::wide_tree(rep, "C01", 65_600, p.seed);
         // many operands and long words at once
         super::ladder::wide_long_words(rep, 300 + (p.seed as u32 * 13) % 200, if p.thorough { 4096 } else { 1000 }, p.seed);
